@@ -384,6 +384,9 @@ def pipe_drop_families(pools=(1,)):
         # the stream is dropped while the producer is idle (registered with a silent input) and the buffer is full
         out.append(make('P_depth1_full_idle_dropstream_p%d' % p, 1, p, 0, [P(1, 1), DEPTH(1, 1), SEND(1, 1), DS(1), DROP(1)], pipes=1))
         out.append(make('P_depth2_full_idle_dropstream_p%d' % p, 1, p, 0, [P(1, 1), DEPTH(1, 2), BARRIER(), SEND(1, 1), SEND(1, 2)], [BARRIER(), DS(1)], pipes=1))
+        # the output stream holds the last strong reference and is dropped by another thread while the producer is in the middle of its loop
+        out.append(make('P_dropobj_send_vs_dropstream_p%d' % p, 1, p, 0, [P(1, 1), DROP(1), BARRIER(), SEND(1, 1)], [BARRIER(), DS(1)], pipes=1))
+        out.append(make('P_dropobj_procgate_dropstream_p%d' % p, 1, p, 1, [P(1, 1, g=1), DROP(1), SEND(1, 1), BARRIER(), FIRE(1)], [BARRIER(), DS(1)], pipes=1))
         out.append(make('P_send_next_dropstream_p%d' % p, 1, p, 0, [P(1, 1), SEND(1, 1), NEXT(1), SEND(1, 2), DS(1)], [S(1)], pipes=1))
         out.append(make('P_procgate_dropstream_p%d' % p, 1, p, 1, [P(1, 1, g=1), SEND(1, 1), DS(1)], [FIRE(1)], pipes=1))
     return out
@@ -420,6 +423,8 @@ def for_property(prop, tier, seed=0):
         fam = max_families()
     elif prop == 'C05':
         fam = drop_families((0, 1) if quick else (0, 1, 2)) + parked_drainer_families()[:1]
+        # ... and the pipe scenarios in which the owner (or the pipe, as last owner) drops the object
+        fam += [s for s in pipe_drop_families((1,) if quick else (1, 2)) + pipe_in_families((1,)) if any(op['k'] == 'drop_obj' for op in scenlib.flatten(s).values())]
     elif prop == 'C08':
         fam = fsync_families((0, 1) if quick else (0, 1, 2))
         if quick:
